@@ -59,11 +59,13 @@ type writeKind struct {
 	name   string
 	status int // 0: no WriteHeader
 	body   bool
+	flush  int // 1: Flush(), 2: FlushError() - commits the implicit 200 like a Write does
 }
 
 var writes = []writeKind{
-	{"silent", 0, false}, {"header-200", 200, false}, {"header-204", 204, false}, {"header-301", 301, false}, {"header-404", 404, false},
-	{"header-500", 500, false}, {"header-599", 599, false}, {"body-only", 0, true}, {"header-200+body", 200, true}, {"header-404+body", 404, true}, {"header-500+body", 500, true},
+	{"silent", 0, false, 0}, {"header-200", 200, false, 0}, {"header-204", 204, false, 0}, {"header-301", 301, false, 0}, {"header-404", 404, false, 0},
+	{"header-500", 500, false, 0}, {"header-599", 599, false, 0}, {"body-only", 0, true, 0}, {"header-200+body", 200, true, 0}, {"header-404+body", 404, true, 0}, {"header-500+body", 500, true, 0},
+	{"flush-only", 0, false, 1}, {"flusherror-only", 0, false, 2}, {"header-404+flush", 404, false, 1},
 }
 
 type nilErr struct{ x int }
@@ -74,6 +76,12 @@ func (e *nilErr) Error() string {
 	}
 	return "err"
 }
+
+// valErr has a value receiver: calling Error() through a nil *valErr panics inside the method
+// call itself (a typed nil pointer is the classic way such a value ends up in an error)
+type valErr struct{ msg string }
+
+func (e valErr) Error() string { return e.msg }
 
 type pstruct struct {
 	A int
@@ -87,15 +95,17 @@ type panicKind struct {
 	text  string
 	json  string // expected JSON rendering (as JSON text)
 	isNil bool
+	loose bool // how the value is spelled is open; the record must carry a panic value all the same
 }
 
 var panics = []panicKind{
-	{"string", func() any { return "boom" }, "boom", `"boom"`, false},
-	{"error", func() any { return errors.New("an error") }, "an error", `"an error"`, false},
-	{"int", func() any { return 42 }, "42", `42`, false},
-	{"struct", func() any { return pstruct{1, "x"} }, "{1 x}", `{"A":1,"B":"x"}`, false},
-	{"typed-nil-error", func() any { return (*nilErr)(nil) }, "nil-receiver-error", `"nil-receiver-error"`, false},
-	{"nil", func() any { return nil }, "", "", true},
+	{"string", func() any { return "boom" }, "boom", `"boom"`, false, false},
+	{"error", func() any { return errors.New("an error") }, "an error", `"an error"`, false, false},
+	{"int", func() any { return 42 }, "42", `42`, false, false},
+	{"struct", func() any { return pstruct{1, "x"} }, "{1 x}", `{"A":1,"B":"x"}`, false, false},
+	{"typed-nil-error", func() any { return (*nilErr)(nil) }, "nil-receiver-error", `"nil-receiver-error"`, false, false},
+	{"nil", func() any { return nil }, "", "", true, false},
+	{"typed-nil-error-with-value-receiver", func() any { return (*valErr)(nil) }, "", "", false, true},
 }
 
 const (
@@ -133,6 +143,12 @@ func (b behaviour) run(s *httpd.Store, yield bool) {
 	if b.w.body {
 		s.W.Write([]byte("hello"))
 	}
+	switch b.w.flush {
+	case 1:
+		s.W.Flush()
+	case 2:
+		s.W.FlushError()
+	}
 	if b.point == pAfter {
 		panic(panics[b.pk].val())
 	}
@@ -140,7 +156,7 @@ func (b behaviour) run(s *httpd.Store, yield bool) {
 
 // expected status the client receives
 func (b behaviour) wantCode() int {
-	wrote := b.point != pBefore && (b.w.status != 0 || b.w.body)
+	wrote := b.point != pBefore && (b.w.status != 0 || b.w.body || b.w.flush != 0)
 	if b.point != pNone && !wrote {
 		return 500
 	}
@@ -349,7 +365,9 @@ func (wd *world) judge(rs *reqSpec, code int, escaped any, chunks []string) stri
 			if !ok {
 				return fmt.Sprintf("C15: Error record has no panic member: %q [%s]", clip(r.raw), desc)
 			}
-			if !pk.isNil {
+			if pk.loose {
+				// any spelling
+			} else if !pk.isNil {
 				w, _ := voracle.ParseJSONLine([]byte(pk.json))
 				want := w.String()
 				if w.Kind == 's' {
@@ -363,11 +381,14 @@ func (wd *world) judge(rs *reqSpec, code int, escaped any, chunks []string) stri
 			}
 		case 1:
 			got, ok := r.fields["panic"]
-			if !ok || (!pk.isNil && got != pk.text) || (pk.isNil && got == "") {
+			if !ok || (!pk.isNil && !pk.loose && got != pk.text) || (pk.isNil && got == "") {
 				return fmt.Sprintf("C15: Error record panic=%q, want %q [%s]", got, pk.text, desc)
 			}
 		case 0:
-			if !pk.isNil && !strings.HasSuffix(r.fields["tail"], " "+pk.text+" "+id) {
+			if pk.loose && !strings.HasSuffix(r.fields["tail"], " "+id) {
+				return fmt.Sprintf("C15: Error record does not end in the request id: %q [%s]", clip(r.fields["tail"]), desc)
+			}
+			if !pk.isNil && !pk.loose && !strings.HasSuffix(r.fields["tail"], " "+pk.text+" "+id) {
 				return fmt.Sprintf("C15: Error record does not end in the panic value and id: %q [%s]", clip(r.fields["tail"]), desc)
 			}
 		}
